@@ -58,7 +58,15 @@ func zzMachineryValue(field string) any {
 //
 //gosym:harness
 //gosym:cover bound-existing created-new reserved-label manual automatic
-func HarnessC07SyncSSA() {
+func HarnessC07SyncSSA() { zzC07Sync(true) }
+
+// HarnessC07SyncCSA: the same for the client-side (merge based) syncer.
+//
+//gosym:harness
+//gosym:cover bound-existing created-new reserved-label manual automatic
+func HarnessC07SyncCSA() { zzC07Sync(false) }
+
+func zzC07Sync(ssa bool) {
 	s := kube.New()
 
 	// ---- the claim
@@ -116,6 +124,17 @@ func HarnessC07SyncSSA() {
 	lkey := prefix + "/name"
 	cm.SetLabels(map[string]string{lkey: "lv", "plain": "pv"})
 	cm.SetAnnotations(map[string]string{lkey: "av"})
+	// the claim may carry an external-name annotation of its own
+	switch zz.Choose("claim.externalName", 3) {
+	case 1:
+		cm.SetAnnotations(map[string]string{lkey: "av", "crossplane.io/external-name": "ext-xr"})
+	case 2:
+		cm.SetAnnotations(map[string]string{lkey: "av", "crossplane.io/external-name": "ext-claim-edited"})
+	}
+	if !ssa {
+		// the client-side syncer only merges XR status into an existing claim status
+		cm.Object["status"] = map[string]any{}
+	}
 	reserved := zz.Or(zz.HasSuffix(prefix, "kubernetes.io"), zz.HasSuffix(prefix, "k8s.io"))
 	s.Put(cm)
 
@@ -163,7 +182,10 @@ func HarnessC07SyncSSA() {
 
 	read := claim.New(claim.WithGroupVersionKind(zzClaimGVK))
 	s.Peek("team", "cm", read)
-	syncer := NewServerSideCompositeSyncer(s, names.NewNameGenerator(s))
+	var syncer CompositeSyncer = NewServerSideCompositeSyncer(s, names.NewNameGenerator(s))
+	if !ssa {
+		syncer = NewClientSideCompositeSyncer(s, names.NewNameGenerator(s))
+	}
 	err := syncer.Sync(context.Background(), read, xr)
 	zz.Assert("sync-no-error", err == nil)
 	if err != nil {
@@ -267,6 +289,9 @@ func HarnessC07SyncSSA() {
 		rref, _ := cspec["compositionRevisionRef"].(map[string]any)
 		if policy == 2 && xrHasRevRef {
 			zz.Assert("automatic-policy-takes-revision-from-xr", rref != nil && rref["name"] == any("rev-from-xr"))
+		} else if policy == 2 {
+			// under Automatic the XR is authoritative for the revision: nothing
+			// is asserted about a claim-side value the XR does not have
 		} else if hasRevRef {
 			zz.Assert("claim-keeps-its-revision-ref", rref != nil && rref["name"] == any("rev-from-claim"))
 		} else {
